@@ -4,7 +4,10 @@ A check run = (1) Lean build + axiom audit of the property's theorems, (2) table
 (3) correspondence: generated op cases are executed by the real package (in-process) and by the
 compiled Lean driver (the model the theorems are about) and compared, (4) Python-side self checks
 (property clauses that are not visible in an op result), (5) failing-input search when anything
-differs, (6) evidence.
+differs, (6) evidence. For the properties that own bit-level expressions of the source there is a second
+tie (1b): the expressions are re-translated to Lean from the current source (tools/pyexpr2lean.py) and, if
+their text changed, the theorems "generated definition = model arithmetic" are re-checked in a scratch
+overlay; a theorem that no longer checks is a NOTE and a reason to search harder, not a violation.
 
 Exit codes: 0 property held on everything explored; 1 VIOLATION (line printed); 2 infrastructure.
 """
@@ -336,8 +339,181 @@ def _strip_comments(src: str) -> str:
     return "".join(out)
 
 
+# --------------------------------------------------------------------------------------------
+# second tie: source expressions translated to Lean on every run (tools/pyexpr2lean.py) and proved equal
+# to the model's arithmetic (lean/SpVerif/Proofs/GeneratedBits.lean)
+# --------------------------------------------------------------------------------------------
+TRANSLATOR = os.path.join(VERIF, "tools", "pyexpr2lean.py")
+GENERATED_LEAN = os.path.join(LEAN_DIR, "SpVerif", "Generated", "Bits.lean")
+GENERATED_SIDECAR = os.path.join(LEAN_DIR, "SpVerif", "Generated", "Bits.json")
+GENERATED_PROOFS = os.path.join(LEAN_DIR, "SpVerif", "Proofs", "GeneratedBits.lean")
+
+
+def _generated_defs(text: str) -> Dict[str, str]:
+    """name -> text of every `def` of a generated file (doc comments, which carry line numbers, stripped)"""
+    import re
+    src = _strip_comments(text)
+    out: Dict[str, str] = {}
+    parts = re.split(r"(?m)^def\s+", src)
+    for p in parts[1:]:
+        m = re.match(r"(\w+)", p)
+        if m:
+            body = re.split(r"(?m)^end\s", p)[0]
+            out[m.group(1)] = " ".join(body.split())
+    return out
+
+
+def _lean_errors(output: str, fname: str) -> List[Dict[str, Any]]:
+    """[{line, text}] for every `<fname>:<line>:<col>: error` of a lean run (text = message head)"""
+    import re
+    errs: List[Dict[str, Any]] = []
+    cur = None
+    for ln in output.split("\n"):
+        m = re.match(r"^(\S+?):(\d+):(\d+): (error|warning)[^:]*: ?(.*)$", ln)
+        if m:
+            cur = None
+            if m.group(4) == "error" and os.path.basename(m.group(1)) == fname:
+                cur = {"line": int(m.group(2)), "text": m.group(5)}
+                errs.append(cur)
+        elif cur is not None and len(cur["text"]) < 400:
+            cur["text"] += " " + ln.strip()
+    for e in errs:
+        e["text"] = " ".join(e["text"].split())[:300]
+    return errs
+
+
+def check_translated_expressions(prop: Prop) -> Dict[str, Any]:
+    """Regenerates the Lean text of the source expressions owned by `prop` from the current REPO. If the
+    text of an owned definition (or of one it calls) changed, the generated file and the equality proofs are
+    re-checked in a scratch overlay of the build tree (nothing inside the worktree is written). Must run
+    after a successful `lake build` (the overlay links to the compiled models).
+    Returns {'expressions': [...], 'broken': [{name, file, line, source, theorem, reason}], ...}."""
+    import re
+    import shutil
+
+    res: Dict[str, Any] = {"expressions": [], "broken": [], "translator_s": 0.0, "recheck_s": 0.0, "rechecked": False}
+    try:
+        committed_side = json.load(open(GENERATED_SIDECAR))
+        committed_text = open(GENERATED_LEAN, encoding="utf-8").read()
+    except (OSError, ValueError):
+        return res
+    owned_committed = [e for e in committed_side if prop.id in e.get("owners", [])]
+    if not owned_committed:
+        return res
+    owned_names = {e["name"] for e in owned_committed}
+    tmp = tempfile.mkdtemp(prefix="spverif-tr-")
+    try:
+        t0 = time.time()
+        out_lean = os.path.join(tmp, "src", "SpVerif", "Generated", "Bits.lean")
+        os.makedirs(os.path.dirname(out_lean))
+        report = os.path.join(tmp, "report.json")
+        p = subprocess.run([sys.executable, TRANSLATOR, "--repo", REPO, "--out", out_lean, "--sidecar",
+                            os.path.join(tmp, "Bits.json"), "--keep-going", "--report", report],
+                           stdout=subprocess.PIPE, stderr=subprocess.PIPE, timeout=300)
+        res["translator_s"] = round(time.time() - t0, 2)
+
+        def broken(e: Dict[str, Any], reason: str):
+            if not any(b["name"] == e["name"] for b in res["broken"]):
+                res["broken"].append({"name": e["name"], "file": e.get("file"), "line": e.get("line"),
+                                      "source": e.get("source"), "theorem": e.get("theorem"), "reason": reason[:400]})
+
+        if p.returncode not in (0, 1) or not os.path.exists(report) or not os.path.exists(out_lean):
+            for e in owned_committed:
+                broken(e, "the translator did not run: " + p.stderr.decode()[-300:])
+            return res
+        rep = json.load(open(report))
+        new_side = json.load(open(os.path.join(tmp, "Bits.json")))
+        new_text = open(out_lean, encoding="utf-8").read()
+        res["expressions"] = [{k: e[k] for k in ("name", "file", "line", "source", "theorem")}
+                              for e in new_side if e["name"] in owned_names]
+        for f in rep.get("failed", []):
+            if f["name"] in owned_names:
+                broken(f, "the source expression can no longer be located / translated: " + str(f.get("reason")))
+        old_defs, new_defs = _generated_defs(committed_text), _generated_defs(new_text)
+        affected = {n for n in set(old_defs) | set(new_defs) if old_defs.get(n) != new_defs.get(n)}
+        grew = True
+        while grew:   # a definition that calls an affected one is affected
+            grew = False
+            for n, body in new_defs.items():
+                if n not in affected and any(re.search(r"\b" + re.escape(a) + r"\b", body) for a in affected):
+                    affected.add(n)
+                    grew = True
+        todo = (affected & owned_names) - {b["name"] for b in res["broken"]}
+        if not todo:
+            return res
+        # scratch overlay: every compiled module of the library except the generated one
+        t1 = time.time()
+        res["rechecked"] = True
+        lib = os.path.join(LEAN_DIR, ".lake", "build", "lib", "lean", "SpVerif")
+        olib = os.path.join(tmp, "lib", "SpVerif")
+        os.makedirs(os.path.join(olib, "Generated"))
+        for fn in os.listdir(lib):
+            if fn != "Generated":
+                os.symlink(os.path.join(lib, fn), os.path.join(olib, fn))
+        libdir = subprocess.run(["lean", "--print-libdir"], stdout=subprocess.PIPE, timeout=60).stdout.decode().strip()
+        env = dict(os.environ)
+        env["LEAN_PATH"] = os.path.join(tmp, "lib") + os.pathsep + libdir
+        src_root = os.path.join(tmp, "src")
+        os.makedirs(os.path.join(src_root, "SpVerif", "Proofs"))
+        shutil.copy(GENERATED_PROOFS, os.path.join(src_root, "SpVerif", "Proofs", "GeneratedBits.lean"))
+        by_name = {e["name"]: e for e in new_side}
+        p1 = subprocess.run(["lean", "-o", os.path.join(olib, "Generated", "Bits.olean"), "SpVerif/Generated/Bits.lean"],
+                            cwd=src_root, env=env, stdout=subprocess.PIPE, stderr=subprocess.STDOUT, timeout=600)
+        if p1.returncode != 0:
+            head = " ".join(p1.stdout.decode().split())[:300]
+            for n in sorted(todo):
+                broken(by_name.get(n, {"name": n}), "the regenerated definitions do not compile: " + head)
+            res["recheck_s"] = round(time.time() - t1, 2)
+            return res
+        p2 = subprocess.run(["lean", "SpVerif/Proofs/GeneratedBits.lean"], cwd=src_root, env=env,
+                            stdout=subprocess.PIPE, stderr=subprocess.STDOUT, timeout=1200)
+        res["recheck_s"] = round(time.time() - t1, 2)
+        out2 = p2.stdout.decode()
+        errs = _lean_errors(out2, "GeneratedBits.lean")
+        if p2.returncode != 0 and not errs:
+            errs = [{"line": 0, "text": " ".join(out2.split())[:300]}]
+        if errs:
+            plines = open(GENERATED_PROOFS, encoding="utf-8").read().split("\n")
+            starts = [(i + 1, m.group(1)) for i, l in enumerate(plines) for m in [re.match(r"^theorem\s+(\w+)", l)] if m]
+            all_names = sorted(new_defs, key=len, reverse=True)
+            for er in errs:
+                idx = max([k for k, (ln, _) in enumerate(starts) if ln <= er["line"]], default=None)
+                hit: List[str] = []
+                if idx is not None:
+                    thm = starts[idx][1]
+                    end = starts[idx + 1][0] - 1 if idx + 1 < len(starts) else len(plines)
+                    block = "\n".join(plines[starts[idx][0] - 1:end])
+                    own = next((n for n in all_names if thm.startswith(n + "_")), None)
+                    if own is not None:
+                        hit.append(own)
+                    hit += [n for n in sorted(affected) if n not in hit and re.search(r"\b" + re.escape(n) + r"\b", block)]
+                    where = f"theorem Generated.{thm} (GeneratedBits.lean:{er['line']}): "
+                else:
+                    hit = sorted(todo)
+                    where = f"GeneratedBits.lean:{er['line']}: "
+                for n in hit:
+                    if n in owned_names:
+                        broken(by_name.get(n, {"name": n}), where + er["text"])
+        return res
+    finally:
+        shutil.rmtree(tmp, ignore_errors=True)
+
+
 def lean_build_and_audit(prop: Prop, tier: str = "quick") -> Dict[str, Any]:
-    """returns {'theorems': [...], 'axioms': {...}, 'problems': [...]}"""
+    """returns {'theorems': [...], 'axioms': {...}, 'problems': [...], 'translated_expressions': [...],
+    'translation_broken': [...]}"""
+    audit = _lean_build_and_audit(prop, tier)
+    audit.setdefault("translated_expressions", [])
+    audit.setdefault("translation_broken", [])
+    if not any("lake build failed" in p for p in audit["problems"]):
+        tr = check_translated_expressions(prop)
+        audit["translated_expressions"] = tr["expressions"]
+        audit["translation_broken"] = tr["broken"]
+        audit["translation_timing"] = {k: tr[k] for k in ("translator_s", "recheck_s", "rechecked")}
+    return audit
+
+
+def _lean_build_and_audit(prop: Prop, tier: str = "quick") -> Dict[str, Any]:
     import fcntl
     import re
 
@@ -629,7 +805,14 @@ def do_check(prop: Prop, tier: str, seed: int, t0: float) -> int:
     concrete = [v for v in viols if v.concrete]
     nonconcrete = [v for v in viols if not v.concrete]
     searched = 0
-    if (nonconcrete or audit["problems"] or sync_diffs or gen_error) and not concrete:
+    # a translated source expression that is no longer proved equal to the model is not a proof problem of the
+    # property (its theorems are about the model, and the correspondence ties the model to the code); it is a
+    # reason to look harder for a disagreement
+    tr_broken = audit.get("translation_broken") or []
+    for b in tr_broken:
+        print(f"NOTE property={prop.id} translated expression {b['name']} ({b.get('file')}:{b.get('line')}) no longer proved "
+              f"equal to the model ({b.get('reason')}); equivalence is now carried by the exhaustive correspondence only")
+    if (nonconcrete or audit["problems"] or sync_diffs or gen_error or tr_broken) and not concrete:
         extra_cases: List[Case] = []
         for v in nonconcrete[:20]:
             base = next((c for c in cases if c.op == v.case), None)
@@ -717,17 +900,24 @@ def do_check(prop: Prop, tier: str, seed: int, t0: float) -> int:
         "coverage": {
             "obligations": obligations,
             "discharged": discharged,
-            "checker_cmd": "cd lean && lake build SpVerif spdriver && lake env lean <generated #print axioms file>  (run by harness/core.py:lean_build_and_audit on every check)",
+            "checker_cmd": "cd lean && lake build SpVerif spdriver && lake env lean <generated #print axioms file>  (run by harness/core.py:lean_build_and_audit on every check; for properties owning translated expressions also tools/pyexpr2lean.py --repo <repo> and, if the generated text changed, lean SpVerif/Generated/Bits.lean + SpVerif/Proofs/GeneratedBits.lean in a scratch overlay)",
             "trusted_base": [
                 "Lean 4.33.0 kernel and elaborator",
                 "axioms allowed: propext, Classical.choice, Quot.sound (audited per theorem on every run)",
                 "hand-written model tied to /repo by the correspondence check in this run (differential: real package in-process vs compiled Lean driver executing the model definitions)",
                 "Lean compiler/runtime executing the model in the driver",
                 "CPython, struct, enum (modelled, not verified)",
-            ] + list(prop.trusted_base),
+            ] + (["tools/pyexpr2lean.py (Python ast -> Lean Nat definitions of the shift/mask expressions listed under "
+                  "translated_expressions, regenerated from the current source in this run; the theorems "
+                  "Generated.<name>_eq prove them equal to the model's arithmetic) — a second tie next to the "
+                  "correspondence check; trusted: the translator's rendering of Python int operators on Nat"]
+                 if audit.get("translated_expressions") or tr_broken else []) + list(prop.trusted_base),
             "theorems": audit["theorems"],
             "axioms_per_theorem": audit["axioms"],
             "proof_problems": audit["problems"],
+            "translated_expressions": audit.get("translated_expressions", []),
+            "translated_expressions_broken": tr_broken,
+            "translated_expressions_timing": audit.get("translation_timing"),
             "lean_build_s": round(audit.get("build_s", 0.0), 2),
             "leanchecker": audit.get("leanchecker"),
             "evaluations": len(cases),
